@@ -71,7 +71,7 @@ pub fn write_module(
         .collect::<Vec<_>>();
     #[cfg(pyxis_verif)]
     crate::verif::reorder_in_place(crate::verif::Site::Definitions, &mut definitions, |d| {
-        d.path.to_string()
+        crate::verif::path_key(&d.path)
     });
     definitions.sort_by_key(|d| &d.path);
     for definition in definitions {
